@@ -54,7 +54,7 @@ def run(ctx: RuleContext):
 # ------------------------------------------------------------------------ C13.1
 def set_memo_shape(ctx, r) -> str:
     """'replace' (stack top rebound to a new tuple) or 'inplace'."""
-    f = r.set
+    f = c05.follow_delegate(ctx.model, r.set)
     al = r.local_aliases(f)
     for n in walk_scope(f.node):
         if isinstance(n, ast.Assign):
@@ -64,18 +64,35 @@ def set_memo_shape(ctx, r) -> str:
     for n in walk_scope(f.node):
         if isinstance(n, ast.Call) and isinstance(n.func, ast.Attribute) and n.func.attr in ("update", "clear"):
             return "inplace"
-        if isinstance(n, ast.For) and any(isinstance(x, ast.Subscript) and r.tl_of_expr(f, x.value, al) is not None for x in ast.walk(n.iter)):
+        if isinstance(n, ast.For) and any((isinstance(x, ast.Subscript) and r.tl_of_expr(f, x.value, al) is not None)
+                                          or (isinstance(x, (ast.Name, ast.Call)) and c05.is_top_expr(r, f, x, al)) for x in ast.walk(n.iter)):
             return "inplace"  # some other in-place scheme; its correctness is judged by the restore rule
     raise AnalysisError("set_shape_memo: neither a replacement of the stack top nor an in-place restore recognised")
 
 
 def push_returns_appended(r) -> bool:
-    f = r.push
+    """True: every return of the push primitive is the very name that was appended; False: some
+    return positively is something else (nothing, a display, a copy); otherwise no verdict."""
+    f = c05.follow_delegate(r.m, r.push)
     _, _, appended = c05.locate_stack(r)
     a = appended.args[0] if appended.args else None
     rets = [x for x in walk_scope(f.node) if isinstance(x, ast.Return)]
-    return bool(rets) and isinstance(a, ast.Name) and all(isinstance(x.value, ast.Name) and x.value.id == a.id for x in rets) \
-        and len(c05._assignments_to(f, a.id)) == 1
+    if bool(rets) and isinstance(a, ast.Name) and all(isinstance(x.value, ast.Name) and x.value.id == a.id for x in rets) \
+            and len(c05._assignments_to(f, a.id)) == 1:
+        return True
+    def constructs_new(v):
+        if v is None or isinstance(v, (ast.Constant, ast.Tuple, ast.Dict, ast.List, ast.Set, ast.ListComp, ast.DictComp, ast.SetComp, ast.GeneratorExp)):
+            return True
+        if isinstance(v, ast.Call):
+            if isinstance(v.func, ast.Attribute) and v.func.attr in ("copy", "deepcopy"):
+                return True
+            if isinstance(v.func, ast.Name) and v.func.id in ("tuple", "list", "dict", "set", "frozenset"):
+                return True
+        return False
+
+    if not rets or any(constructs_new(x.value) for x in rets):
+        return False
+    raise AnalysisError(f"{f.qualname}: cannot tell whether the value returned is the tuple that was put on the stack")
 
 
 def _push_derived(m, r, cg, f: FuncInfo, name: str, depth=0) -> bool:
